@@ -30,7 +30,7 @@ else
   TARGET=$W
 fi
 for p in "$@"; do
-  (cd /verif && VERIF_REPO=$TARGET python3 check.py $p --tier quick > /tmp/mut/check_${SID}_$p.log 2>&1; echo "CHECK $p exit $?: $(egrep '^VIOLATION|^OK|^INFRA|^DRIFT:' /tmp/mut/check_${SID}_$p.log | head -2 | tr '\n' ' ')")
+  (cd ${VERIF_DIR:-/verif} && VERIF_REPO=$TARGET python3 check.py $p --tier quick > /tmp/mut/check_${SID}_$p.log 2>&1; echo "CHECK $p exit $?: $(egrep '^VIOLATION|^OK|^INFRA|^DRIFT:' /tmp/mut/check_${SID}_$p.log | head -2 | tr '\n' ' ')")
 done
 if [ "${APPLY_TO_REPO:-0}" = 1 ]; then
   git -C /repo checkout -- .
